@@ -15,6 +15,9 @@
  *                            through cg_ndescriptors / cg_descriptor_read: "r <status> name,name,..."
  *              delete NAME-> cg_delete_node(NAME)                                       -> "d <status>"
  *              counts     -> cg_nuser_data / cg_narrays / cg_ndescriptors at the position -> "k <st> <n> <st> <n> <st> <n>"
+ *              probe      -> read-only node-context calls whose answers depend on the context of the position
+ *                            (cg_ptset_info, cg_rind_read, cg_gridlocation_read, cg_diffusion_read, cg_ordinal_read,
+ *                            cg_dataclass_read, counts): "p ..." -- compared between two spellings of the same node
  *   files      ft adf|hdf5 ; open r|w|m FILE ; close
  * Never prints pointers, ids, floats or error texts. */
 #include <stdio.h>
@@ -252,6 +255,22 @@ int main(void)
             int a = -1, b = -1, d = -1;
             int r1 = cg_nuser_data(&a), r2 = cg_narrays(&b), r3 = cg_ndescriptors(&d);
             printf("k %d %d %d %d %d %d\n", r1, r1 ? -1 : a, r2, r2 ? -1 : b, r3, r3 ? -1 : d);
+        }
+        else if (!strcmp(c, "probe")) {
+            /* read-only node-context calls whose answer depends on the CONTEXT of the position (zone, index dimension,
+               parent kind), not only on the node: they must answer the same however the position was reached */
+            CGNS_ENUMT(PointSetType_t) pt = 0; cgsize_t np = -1; int rind[12], diff[12], i, ord = -7, a = -1, b = -1, d = -1;
+            CGNS_ENUMT(GridLocation_t) loc = 0; CGNS_ENUMT(DataClass_t) dc = 0;
+            int r1, r2, r3, r4, r5, r6, r7, r8, r9;
+            for (i = 0; i < 12; i++) { rind[i] = -7; diff[i] = -7; }
+            r1 = cg_ptset_info(&pt, &np); r2 = cg_rind_read(rind); r3 = cg_gridlocation_read(&loc);
+            r4 = cg_diffusion_read(diff); r5 = cg_ordinal_read(&ord); r6 = cg_dataclass_read(&dc);
+            r7 = cg_nuser_data(&a); r8 = cg_narrays(&b); r9 = cg_ndescriptors(&d);
+            printf("p pt=%d:%d:%lld rind=%d", r1, r1 ? 0 : (int)pt, r1 ? 0LL : (long long)np, r2);
+            if (!r2) for (i = 0; i < 6; i++) printf(",%d", rind[i]);
+            printf(" loc=%d:%d diff=%d", r3, r3 ? 0 : (int)loc, r4);
+            if (!r4) for (i = 0; i < 6; i++) printf(",%d", diff[i]);
+            printf(" ord=%d:%d dc=%d:%d n=%d:%d,%d:%d,%d:%d\n", r5, r5 ? 0 : ord, r6, r6 ? 0 : (int)dc, r7, r7 ? -1 : a, r8, r8 ? -1 : b, r9, r9 ? -1 : d);
         }
         else printf("badline %s\n", c);
         if (rc > 0 && getenv("C11_DEBUG")) fprintf(stderr, "[%s] -> %d: %s\n", c, rc, cg_get_error());
